@@ -68,6 +68,70 @@ def truthiness_uses(fnode):
     return out
 
 
+def _tests_none(fnode, p):
+    for n in _own_nodes(fnode):
+        if isinstance(n, ast.Compare) and len(n.ops) == 1 and isinstance(n.ops[0], (ast.Is, ast.IsNot, ast.Eq, ast.NotEq)):
+            sides = [n.left, n.comparators[0]]
+            if any(isinstance(x, ast.Name) and x.id == p for x in sides) and any(isinstance(x, ast.Constant) and x.value is None for x in sides):
+                return True
+        if isinstance(n, ast.Call) and isinstance(n.func, ast.Name) and n.func.id in ('isinstance', 'hasattr', 'getattr', 'callable') and n.args \
+                and isinstance(n.args[0], ast.Name) and n.args[0].id == p:
+            return True
+    return False
+
+
+def _rebound(fnode, p):
+    for n in _own_nodes(fnode):
+        if isinstance(n, (ast.Assign, ast.AugAssign, ast.AnnAssign)):
+            tg = n.targets if isinstance(n, ast.Assign) else [n.target]
+            for t in tg:
+                for x in (t.elts if isinstance(t, ast.Tuple) else [t]):
+                    if isinstance(x, ast.Name) and x.id == p:
+                        return True
+    return False
+
+
+def strict_uses(repo, f, p, depth=0):
+    """places where the value of parameter p is used in a way None cannot survive"""
+    out = []
+    me = f.pos_params[0] if (f.cls is not None and f.pos_params) else None
+    for n in _own_nodes(f.node):
+        if isinstance(n, ast.BinOp) and any(isinstance(x, ast.Name) and x.id == p for x in (n.left, n.right)):
+            out.append((n, 'arithmetic'))
+        elif isinstance(n, (ast.Attribute, ast.Subscript)) and isinstance(n.value, ast.Name) and n.value.id == p and isinstance(n.ctx, ast.Load):
+            out.append((n, 'attribute / item access'))
+        elif isinstance(n, ast.Call) and (dotted(n.func) or '').startswith('torch.') and any(isinstance(a, ast.Name) and a.id == p for a in n.args):
+            if (dotted(n.func) or '').split('.')[-1] not in ('is_tensor',):
+                out.append((n, 'argument of %s' % dotted(n.func)))
+        elif isinstance(n, ast.Assign) and isinstance(n.value, ast.Name) and n.value.id == p and me is not None and depth < 1:
+            for t in n.targets:
+                d = dotted(t)
+                if d and d.startswith(me + '.') and d.count('.') == 1:
+                    setter = repo.find_method(f.cls, d.split('.')[1] + '.setter') if hasattr(repo, 'find_method') else None
+                    if setter is not None and len(setter.pos_params) >= 2:
+                        sp = setter.pos_params[1]
+                        inner = strict_uses(repo, setter, sp, depth + 1)
+                        # an isinstance test in the setter routes None into its strict branch as well (torch.tensor(None)); only a None test protects
+                        if inner and not any(isinstance(c, ast.Compare) and any(isinstance(x, ast.Constant) and x.value is None for x in [c.left] + c.comparators)
+                                             and any(isinstance(x, ast.Name) and x.id == sp for x in [c.left] + c.comparators) for c in _own_nodes(setter.node)):
+                            out.append((n, 'the property setter %s, which uses its value in %s' % (setter.qual, inner[0][1])))
+    return out
+
+
+def none_unchecked(repo, f):
+    out = []
+    for p in sorted(optional_value_params(f.node)):
+        if _tests_none(f.node, p) or _rebound(f.node, p):
+            continue
+        # a truthiness test is reported by the other clause and does protect against None
+        if any(q == p for _, q, _ in truthiness_uses(f.node)):
+            continue
+        for node, how in strict_uses(repo, f, p):
+            out.append((node, p, how))
+            break
+    return out
+
+
 @guarded
 def rule_optional(repo, rid, modules, floor=0):
     res = RuleResult(rid, 'optional value arguments (default None) are tested for presence with `is None`, never by truthiness: a legitimate zero '
@@ -81,6 +145,9 @@ def rule_optional(repo, rid, modules, floor=0):
             n += 1
             uses = truthiness_uses(f.node)
             res.inst({'function': f.fq, 'optional value arguments': sorted(ps), 'truthiness tests': [form for _, _, form in uses]}, f.fq)
+            for node, p, how in none_unchecked(repo, f):
+                res.add(Finding(rid, f, 'the optional argument `%s` (default None, documented as "use the current value") reaches %s without any test for None: '
+                                'the default call raises instead of falling back' % (p, how), node=node, construct='none-flow|%s' % p))
             for node, p, form in uses:
                 res.add(Finding(rid, f, '%s decides whether the optional argument `%s` was given by its truth value: a caller passing the legitimate value 0 '
                                 '(or a zero tensor) silently gets the default instead, and a multi-element tensor makes the test raise'
